@@ -44,6 +44,23 @@ def gen(chk, tier):
         kk = rng.choice(st) if rng.random() < 0.3 else rscalar(rng)
         g.one("structured_key", "sm2.signverify", kind="hashed", priv=enc, e=rb(rng, 32),
               script=sm2gen.script_of([kk, rscalar(rng)]))
+    # the caller refills ONE buffer per argument in place between calls (ids / messages / digests of equal length):
+    # a signer that remembers a slice instead of its contents signs with stale data
+    for kind in ("id", "za", "hashed"):
+        for _ in range(2 if q else 20):
+            k = g.scenario("buffers_refilled_in_place_" + kind)
+            d = rscalar(rng)
+            for j in range(4):
+                kw = dict(kind=kind, priv=b32(d), script=sm2gen.script_of([rscalar(rng), rscalar(rng)]), reuse=True)
+                if kind == "hashed":
+                    kw["e"] = rb(rng, 32)
+                elif kind == "za":
+                    kw["za"], kw["msg"] = rb(rng, 32), rb(rng, 20)
+                else:
+                    kw["id"], kw["msg"] = rb(rng, 16), rb(rng, 20)
+                g.add(k, "sm2.signverify", **kw)
+                if j == 1:
+                    d = rscalar(rng)         # and another key half way
     for L in (1, 8, 31):
         v = rng.getrandbits(8 * L) | 1
         g.one("short_key", "sm2.signverify", kind="hashed", priv=list(v.to_bytes(L, "big")), e=rb(rng, 32),
@@ -75,7 +92,9 @@ def keyfn(b):
 def run(tier):
     chk = Check(PROP, tier)
     chk.model("MC_SM2Toy", cfg="MC_SM2Toy.cfg" if tier == "thorough" else "MC_SM2Toy_quick.cfg")
-    chk.exec_and_validate("T_SM2", gen(chk, tier), keyfn, accel=True, families=("bits", "big"))
+    cmds_ = gen(chk, tier)
+    chk.exec_and_validate("T_SM2", cmds_, keyfn, accel=True, families=("bits", "big"))
+    chk.first_use("T_SM2", cmds_, keyfn, accel=True, families=("bits", "big"))
     return chk.finish(
         "model_checking",
         "derive-sign-verify round trips through all three entry-point pairs: signatures solved so that r, s or "
